@@ -756,8 +756,15 @@ pub fn c02(tier: &str, seed: u64) {
     let coins = if round % 2 == 0 { vec![0x5a; 32] } else { g.blob(32) };
     let msgs: Vec<Vec<u8>> = vec![vec![0x11; 32], vec![0x22; 32], { let mut v = vec![0x11; 32]; v[31] ^= 1; v }, g.blob(5)];
     let mut seen: std::collections::BTreeMap<Vec<u8>, usize> = Default::default();
+    // under the default transcript and under ONE caller-supplied transcript shared by all sharings
+    let custom = if round % 3 == 2 { Some(custom_transcript(&mut g).0) } else { None };
+    if custom.is_some() {
+      stat("oracle.C02.reused_coins_under_a_custom_transcript");
+    }
     for (mi, msg) in msgs.iter().enumerate() {
-      let c = Commune::new(t, msg.clone(), coins.clone(), None);
+      // (with a custom transcript also vary the coins: then only the transcript is common)
+      let cn = if custom.is_some() && mi % 2 == 1 { g.blob(32) } else { coins.clone() };
+      let c = Commune::new(t, msg.clone(), cn, custom.clone());
       let pts: Vec<(BigUint, BigUint)> = (0..t)
         .map(|_| {
           let b = c.clone().share().expect("share").to_bytes();
@@ -828,7 +835,8 @@ pub fn c03(tier: &str, seed: u64) {
   let mut g = Sm::new(seed, "oracle.C03");
   let n = if quick(tier) { 40 } else { 500 };
   for case_i in 0..n {
-    let t = g.range(2, 12) as u32;
+    // thresholds small, and now and then beyond the 8- and 16-bit marks
+    let t = match case_i % 20 { 5 => 65_536, 9 => 65_537, 13 => 257, _ => g.range(2, 12) as u32 };
     let m = { let n = g.range(1, 40) as usize; g.blob(n) };
     // epochs of every shape, the empty one included
     let e = match case_i % 5 { 0 => vec![], 1 => vec![0u8], _ => g.blob(2) };
@@ -963,6 +971,28 @@ pub fn c03(tier: &str, seed: u64) {
           fail("aux_in_clear", &[("offset", off.to_string()), ("report", hex(&b))]);
         }
         stat("oracle.aux_scans");
+      }
+      // the CHAIN through the sharing layer: a 16-byte window of the report taken as the ADSS key K
+      // opens the share's encrypted message (r1), from which the payload key follows
+      if case_i % 4 == 1 {
+        let sb = c.msg.share.to_bytes();
+        let f = share_len_fields(&sb);
+        let clen = u32::from_le_bytes(sb[f[2]..f[2] + 4].try_into().unwrap()) as usize;
+        let cfield = sb[f[2] + 4..f[2] + 4 + clen].to_vec();
+        for w in b.windows(16).step_by(if quick(tier) { 2 } else { 1 }) {
+          let mut ks = Strobe::new(b"adss encrypt", SecParam::B128);
+          ks.key(w, false);
+          let mut r1 = cfield.clone();
+          ks.recv_enc(&mut r1, false);
+          let mut pk = [0u8; 16];
+          derive_ske_key(&r1, &c.e, &mut pk);
+          let pt = c.msg.ciphertext.decrypt(&pk, "star_encrypt");
+          if pt == payload_of(&c.m, &c.aux) {
+            fail("report_opened_through_values_it_carries", &[("what", "a 16-byte window of the report is the sharing key: it decrypts the share's encrypted message, which gives the payload key".into()), ("window", hex(w)), ("threshold", c.t.to_string()), ("report_len", b.len().to_string())]);
+            break;
+          }
+          stat("oracle.key_chain_windows");
+        }
       }
       // every 16-byte window of the report as decryption key: never a well-framed payload
       if case_i % 4 == 0 {
@@ -1110,6 +1140,31 @@ pub fn c04(tier: &str, seed: u64) {
     }
     stat("oracle.C04.non_utf8_families");
   }
+  // the boundary between EPOCH and THRESHOLD: epochs that end in decimal digits next to thresholds
+  // whose decimal (or byte) expansion continues them - ("epoch-1", 23) vs ("epoch-12", 3)
+  for e_base in [&b"epoch-"[..], b"", b"t", b"2024-0", &[0x31u8][..]] {
+    for t in [23u32, 105, 42, 100, 15, 1000, 256, 65536] {
+      let dec = t.to_string();
+      for cut in 0..dec.len() {
+        let (a, b) = dec.split_at(cut);
+        if let Ok(t2) = b.parse::<u32>() {
+          let mut e2 = e_base.to_vec();
+          e2.extend(a.as_bytes());
+          check_distinct(&m0, &e2, t2, &mut seen);
+        }
+      }
+      // the same with the little-endian bytes of the threshold moved into the epoch
+      let le = t.to_le_bytes();
+      for cut in 1..4 {
+        let mut e2 = e_base.to_vec();
+        e2.extend(&le[..cut]);
+        let mut rest = [0u8; 4];
+        rest[..4 - cut].copy_from_slice(&le[cut..]);
+        check_distinct(&m0, &e2, u32::from_le_bytes(rest), &mut seen);
+      }
+    }
+  }
+  stat("oracle.C04.epoch_threshold_boundary_families");
   stat("oracle.C04.related_by_padding_families");
   for l in 0..m0.len() {
     check_distinct(&m0[..l], &e0, 3, &mut seen);
